@@ -41,7 +41,7 @@ type script struct {
 	RecsDesc []string      `json:"records"`
 	CutAt    int           `json:"cut_at"`   // -1: whole stream; else only the first CutAt bytes are sent
 	Segments []int         `json:"segments"` // write sizes
-	Reset    string        `json:"reset"`    // "": close normally; "after-handshake": reset before sending anything; "after-send": reset after sending
+	Reset    string        `json:"reset"`    // "": close normally; "after-handshake": reset before sending anything; "after-send": reset after sending; "stall": keep the connection open, silent, for 5.5 s
 }
 
 func (s *script) stream() []byte {
@@ -140,6 +140,9 @@ func install(s *script, ch chan connKeys) {
 		c.WriteSegments(s.stream(), s.Segments)
 		if s.Reset == "after-send" {
 			reset(c)
+		}
+		if s.Reset == "stall" {
+			time.Sleep(5500 * time.Millisecond)
 		}
 	})
 }
@@ -249,6 +252,10 @@ func genScript(t *rapid.T) *script {
 		s.Reset = "after-handshake"
 	case 9:
 		s.Reset = "after-send"
+	case 12:
+		if rapid.IntRange(0, 9).Draw(t, "stall") == 0 {
+			s.Reset = "stall" // the server stops there and keeps the connection open for longer than the exchange may take
+		}
 	}
 	for _, r := range recs {
 		s.RecsDesc = append(s.RecsDesc, fmt.Sprintf("type=%d critical=%v len=%d", r.Type, r.Critical, len(r.Body)))
@@ -349,7 +356,7 @@ func fetch(t failer, f *ntske.Fetcher, m *model, s *script, hist *[]string) stri
 	return "exchange-succeeded"
 }
 
-var rec = ev.New("c20/fetcher-histories", "rapid state machine on one real ntske.Fetcher (TLS) against the harness's scripted TLS 1.3 key-exchange server (run-time self-signed certificate): each step is one FetchData call; when the model pool is empty the server plays a generated script: ALPN {ntske/1, both, other, none}; record stream from a grammar (next protocol, AEAD 15 / other / missing, optional server and port records, 0..8 cookies of 1..300 bytes, optional reordering, inserted unknown non-critical / unknown critical / error (0,1,2,77) / warning records at any position, end record present or missing, records after the end), truncation at any byte offset, write segmentation {1 byte, n bytes, random sizes, all at once}, connection reset after the handshake or after sending. Oracle: success only if the statement's conditions hold on the bytes sent (own record parser); plain well-formed streams (with unknown non-critical records, extra records after the end, any segmentation) must succeed; on success keys == exporter values of the server's side of the same TLS session (label and contexts written out independently), C2S != S2C, pool == issued cookies in order, server/port as named or KE host:123; following calls are served from the pool without a new connection, one cookie each, same keys; after a failure the next call opens exactly one new connection and depends on the new script only. One evaluation = one FetchData call. Non-trivial: history with a script that delivers >= 1 cookie and then fails, a success after a failure, or a segmented record; distinct by history hash")
+var rec = ev.New("c20/fetcher-histories", "rapid state machine on one real ntske.Fetcher (TLS) against the harness's scripted TLS 1.3 key-exchange server (run-time self-signed certificate): each step is one FetchData call; when the model pool is empty the server plays a generated script: ALPN {ntske/1, both, other, none}; record stream from a grammar (next protocol, AEAD 15 / other / missing, optional server and port records, 0..8 cookies of 1..300 bytes, optional reordering, inserted unknown non-critical / unknown critical / error (0,1,2,77) / warning records at any position, end record present or missing, records after the end), truncation at any byte offset, write segmentation {1 byte, n bytes, random sizes, all at once}, connection reset after the handshake or after sending, or (rarely) left open and silent for longer than the exchange's time limit. Oracle: success only if the statement's conditions hold on the bytes sent (own record parser); plain well-formed streams (with unknown non-critical records, extra records after the end, any segmentation) must succeed; on success keys == exporter values of the server's side of the same TLS session (label and contexts written out independently), C2S != S2C, pool == issued cookies in order, server/port as named or KE host:123; following calls are served from the pool without a new connection, one cookie each, same keys; after a failure the next call opens exactly one new connection and depends on the new script only. One evaluation = one FetchData call. Non-trivial: history with a script that delivers >= 1 cookie and then fails, a success after a failure, or a segmented record; distinct by history hash")
 
 func TestPropFetcherHistories(t *testing.T) {
 	vt.Check(t, 250, 2500, func(t *rapid.T) {
